@@ -201,7 +201,7 @@ func buildGens(r int, seed uint64) []namedGen {
 	add(wrap("Int8Range", rapid.Int8Range(-5, int8(p))))
 	add(wrap("Int16Range", rapid.Int16Range(int16(-p), 3000)))
 	add(wrap("Int32Range", rapid.Int32Range(int32(p), int32(p)+1)))
-	add(wrap("Int64Range", rapid.Int64Range(-1<<62, int64(p)<<60)))
+	add(wrap("Int64Range", rapid.Int64Range(-1<<62, int64(p%4)<<60)))
 	add(wrap("UintRange", rapid.UintRange(uint(p), uint(p)*3+1)))
 	add(wrap("Uint8Range", rapid.Uint8Range(0, uint8(p))))
 	add(wrap("Uint16Range", rapid.Uint16Range(uint16(p), 65535)))
